@@ -189,14 +189,17 @@ def gen_program(rng, **over):
         d = {'name': 'in%d' % i, 'io': 'in', 'kind': 'instance', 'nparams': rng.randrange(0, 4), 'resolver': None,
              'capture': 'all', 'handler': None, 'fallback': None, 'run_original': False, 'substitute': ('none',), 'nested': []}
         alias = rng.choice(ALIAS_POOL) if o['hostile_aliases'] else 'in.%d' % i
-        while alias.replace('{p}', '') in used:
-            alias = alias + str(i)
         if '{p}' in alias:
             if o['resolvers'] and d['nparams'] > 0:
                 d['resolver'] = 0
             else:
                 alias = alias.replace('{p}', 'p')
-        used.add(alias.replace('{p}', ''))
+        # aliases must be unique (the framework requires it); a resolver template must not be able to format into another alias
+        if '{p}' in alias:
+            alias = 'tpl%d.%s' % (i, alias)           # its formatted values can then never equal another alias
+        while alias in used:
+            alias = alias + str(i)
+        used.add(alias)
         d['alias'] = alias
         r = rng.random()
         if o['statics'] and r < 0.25:
@@ -410,6 +413,7 @@ class Built(object):
         self.fault_log = []
         self.trace = []
         self._tl = threading.local()
+        self._sticky_raise = set()
         self.snapshot = False      # keep harness-side deep copies of returned values (for runs that mutate what they obtain)
 
     # ---- fault plumbing -------------------------------------------------------------------------
@@ -559,7 +563,12 @@ class Built(object):
                 built.recorder.discard_recording()
             if built.consume('body_force') and built.recorder is not None:
                 built.recorder.force_sample_recording()
-            if built.consume('body_raise_user'):
+            # an injected failure of an input is sticky for that call identity: inputs are pure functions of (alias, captured
+            # arguments), so the same call must fail again later in the run
+            ident = (d['name'], canon(built.captured(d, a, kwargs))) if d['io'] == 'in' else None
+            if built.consume('body_raise_user') or (ident is not None and ident in built._sticky_raise):
+                if ident is not None:
+                    built._sticky_raise.add(ident)
                 ex = UserError('injected in body of ' + d['name'])
                 ev['raised'] = ex
                 raise ex
@@ -722,12 +731,16 @@ class Built(object):
             d = self.decls[s['decl']]
             args = [self._eval(a) for a in s['args']]
             kwargs = {k: self._eval(v) for k, v in s['kwargs'].items()}
-            if fault == 'badkey':
+            if fault == 'badkey' and not d['kind'].startswith('property'):
+                cap = d.get('capture', 'all')
                 if args:
                     args[0] = Unencodable()
+                    key_fails = d['io'] == 'in' and (cap == 'all' or (cap != 'none' and 0 in cap))
                 else:
                     kwargs['extra'] = Unencodable()
-                self.fault_log.append((pos, fault))
+                    key_fails = d['io'] == 'in' and cap == 'all'
+                # 'badkey_key': the unencodable argument is part of an input's key, so the key cannot be built
+                self.fault_log.append((pos, 'badkey_key' if key_fails else 'badkey'))
             elif fault in ('handler_raises', 'resolver_raises', 'body_discard', 'body_force', 'body_raise_user',
                            'body_raise_interrupt', 'value_unencodable'):
                 self.arm(fault)
